@@ -1,13 +1,16 @@
 """C14  How a string is stored (linked, copied, de-duplicated) is unobservable.
 
-Document.tla has no storage attribute at all: its observations (tree, serialization, numeric
-conversion of strings, comparisons, key lookups) are functions of the bytes only.  The behaviours
+Document.tla's observations (tree, serialization, numeric conversion of strings, comparisons, key
+lookups) are functions of the bytes only; the one storage attribute it has is what the API reports on
+purpose, JsonString::isLinked() (values "s" copied / "l" kept by address, field k of the projection):
+a string set through a copying kind is stored by copy whatever the target held before.  The behaviours
 TLC generates from a string-heavy instance of DocumentMC (keys that are prefixes of one another,
 NUL inside, bytes >= 0x80, numeric-looking strings; equal strings shared inside a document and
 removed one user at a time) are replayed once per STRING KIND: every string argument (value, key
 in operator[], key in remove, lookup key, comparison operand) is supplied as string literal /
 const char*, char*, char[], std::string, string_view, JsonString (copied and linked), Arduino
-String and flash string in turn, and once with kinds mixed at random.  Copied kinds have their
+String and flash string in turn (storage flag dropped from both sides), and once with kinds mixed at
+random within the storage class the specification's value asks for (storage flag compared).  Copied kinds have their
 source buffer scribbled over right after the call."""
 import os
 import shutil
